@@ -254,7 +254,12 @@ def measured_terms(name, cfg, args, which):
     if name in ("layer_norm", "rms_norm"):
         return args["input"].numel() / max(1, math.prod(args["normalized_shape"]))
     if name == "conv1d" and which == "input":
-        return float(g.mean())
+        # "exact at interior positions": average the term count over positions away from both edges
+        K, dil = args["weight"].shape[-1], args.get("dilation", 1)
+        ext = (K - 1) * dil
+        L = g.shape[-1]
+        inner = g[..., ext : L - ext] if L - 2 * ext >= 1 else g
+        return float(inner.mean())
     return float(g.flatten().max())
 
 
